@@ -1,5 +1,6 @@
 (* C08 -- a configuration update is all-or-nothing.  Final statements only;
-   the model is in Model.v (the code after patches/C08/fix-F-C08{a,b,c,e,f}),
+   the model is in Model.v (the code after patches/C08/fix-F-C08{a,b,c,e,f,j},
+   all of them applied in /repo),
    the proofs in Proofs.v.
 
    Every theorem quantifies over: the type of file contents and the digest
@@ -33,7 +34,7 @@
    they do on a disk. *)
 From Coq Require Import List NArith Bool Arith.
 From Coq Require Import Lia.
-From Verif Require Import C08.Model C08.Proofs C08.Spans C08.NameCheck.
+From Verif Require Import C08.Model C08.Proofs C08.Spans C08.NameCheck C08.Beyond.
 Import ListNotations.
 
 (* an engine built from a disk that holds configuration [d] in all the places
@@ -149,7 +150,29 @@ Section Statements.
      reason when the fault hit the roll-back).  With a sound old configuration
      on a disk that is a tree, one fault -- at any step -- or one bad payload
      alone always ends in [Failed] or [Ok], to which the theorems above
-     apply. *)
+     apply.
+     How far the two conjuncts go (audit 2):
+     - [type_conflict] is a decidable OVER-approximation of "a save of the
+       payload is blocked without any fault" (what the proof uses: [blocks] in
+       Proofs.v, [blocks_type_conflict]).  A payload with [type_conflict = true]
+       can be perfectly good: /apply_flows empties the directories first, so
+       a quota named like the directory of an old quota file is saved without
+       trouble (Example [C08_type_conflict_payload_can_be_valid] below: [Ok]
+       without fault).  For such a payload the theorem only says
+       [f <> NoFault]: it does NOT show that a single fault is rolled back.  On
+       that instance no single fault (any primitive step, any hook) ends in
+       [RollbackFailed] (same Example, by computation), so the disjunct is
+       slack of the proof as far as we know, not a known hole -- but the
+       unbounded claim for these payloads is not made.
+     - [f <> NoFault] is about the oracle handed to the run, not about what
+       happened: [AtStep n] with n past the last step of the run never fires
+       and still satisfies it.  It is read as "a fault fired" through
+       [fault_beyond_end] (Beyond.v; restated below as
+       [C08_fault_that_never_fires_changes_nothing]): a run that ends with its
+       oracle unconsumed ([flt s' <> NoFault]) is, result and state, the run
+       without fault -- which by this very theorem does not end in
+       [RollbackFailed]; hence [C08_rollback_failure_consumed_the_fault]:
+       after [RollbackFailed] the oracle HAS fired ([flt s' = NoFault]). *)
   Theorem C08_rollback_fails_only_after_two_failures : forall hs hint rq d f s',
     digest_injective_on_contents_met rq d ->
     (forall a b, (forall p, covered p = true -> lookup p a = lookup p b) -> valid a = valid b) ->
@@ -165,6 +188,38 @@ Section Statements.
     intros hs hint rq d f s' Inj Vx Mx Vd Md T R.
     destruct (master _ _ _ _ _ _ _ _ D_eqb_spec Inj R) as (k & _ & _ & _ & _ & H2).
     destruct (H2 eq_refl Vx Mx Vd Md T (or_introl eq_refl)) as [Hf Hn]. split; [exact Hf|exists k; exact Hn].
+  Qed.
+
+  (* A fault that never fires changes nothing: a run that ends with its oracle
+     unconsumed (the step / hook index lies beyond the end of the run) has the
+     result and the final state -- disk, engine, every arrival, every epoch --
+     of the run without fault.  So [f <> NoFault] together with
+     [flt s' = NoFault] says "a fault fired", and a hypothesis or conclusion
+     [f <> NoFault] alone is never met by a fault that did not happen without
+     the run being the fault-free one. *)
+  Theorem C08_fault_that_never_fires_changes_nothing : forall hs hint rq d f r s',
+    run hs hint rq d f = (r, s') -> flt s' <> NoFault ->
+    f <> NoFault /\ run hs hint rq d NoFault = (r, unflt s').
+  Proof. intros hs hint rq d f r s' R N. eapply fault_beyond_end; eassumption. Qed.
+
+  (* [C08_rollback_fails_only_after_two_failures] with the fault read
+     semantically: after [RollbackFailed] the single-shot oracle HAS fired. *)
+  Theorem C08_rollback_failure_consumed_the_fault : forall hs hint rq d f s',
+    digest_injective_on_contents_met rq d ->
+    (forall a b, (forall p, covered p = true -> lookup p a = lookup p b) -> valid a = valid b) ->
+    (forall a b, (forall p, covered p = true -> lookup p a = lookup p b) -> metrics_ok a = metrics_ok b) ->
+    valid d = true -> metrics_ok d = true ->
+    tree under d ->
+    run hs hint rq d f = (RollbackFailed, s') ->
+    f <> NoFault /\ flt s' = NoFault.
+  Proof.
+    intros hs hint rq d f s' Inj Vx Mx Vd Md T R.
+    split; [exact (proj1 (C08_rollback_fails_only_after_two_failures _ _ _ _ _ _ Inj Vx Mx Vd Md T R))|].
+    destruct (flt s') eqn:E; [reflexivity| |]; exfalso;
+      (assert (N : flt s' <> NoFault) by (rewrite E; discriminate));
+      destruct (C08_fault_that_never_fires_changes_nothing _ _ _ _ _ _ _ R N) as [_ R0];
+      destruct (C08_rollback_fails_only_after_two_failures _ _ _ _ _ _ Inj Vx Mx Vd Md T R0) as [X _];
+      apply X; reflexivity.
   Qed.
 
   (* ---- the order of the payload files does not matter when they are distinct ----
@@ -340,6 +395,8 @@ Print Assumptions C08_disk_atomic_without_name_check_on_covered_places.
 Print Assumptions C08_engine_atomic.
 Print Assumptions C08_no_empty_engine.
 Print Assumptions C08_rollback_fails_only_after_two_failures.
+Print Assumptions C08_fault_that_never_fires_changes_nothing.
+Print Assumptions C08_rollback_failure_consumed_the_fault.
 Print Assumptions C08_engine_atomic_distinct_targets.
 Print Assumptions C08_disk_atomic_holds_outside_failed_rollback.
 Print Assumptions C08_flows_as_before_holds_outside_failure_after_switch.
@@ -513,6 +570,51 @@ Proof. vm_compute. reflexivity. Qed.
 Example C08_rollback_failure_is_reachable :
   result_code (fst (ex_run (c_valid [30]) HApplyFlows (AtStep 20))) = 2.
 Proof. vm_compute. reflexivity. Qed.
+
+(* the same second failure by a fault the harness CAN inject (a verifhook.Fault
+   call): the hook-bearing steps 6, 7, 9 and 11 of this run lie inside Restore
+   (F-C08h); at hook 6 the invalid f3 and the rewritten f1 stay, q1 is lost,
+   and the oracle has been consumed *)
+Example C08_rollback_failure_by_a_hook_fault :
+  result_code (fst (ex_run (c_valid [30]) HApplyFlows (AtHook 6))) = 2 /\
+  map (fun k => result_code (fst (ex_run (c_valid [30]) HApplyFlows (AtHook k)))) (seq 0 16)
+  = [1; 1; 1; 1; 1; 1; 2; 2; 1; 2; 1; 2; 1; 1; 1; 1] /\
+  (let '(r, s) := ex_run (c_valid [30]) HApplyFlows (AtHook 6) in (normalize (dsk s), flt s))
+  = ([(ex_f3, 30); (ex_f1, 11); ((AMetricsDefault, 0), 77)], NoFault).
+Proof. split; [|split]; vm_compute; reflexivity. Qed.
+
+(* a fault index beyond the end of the run (it has 35 arrival points) never
+   fires: [AtStep 1000 <> NoFault], yet result, disk and arrivals are those of
+   the run without fault and the oracle is left unconsumed -- the instance of
+   C08_fault_that_never_fires_changes_nothing *)
+Example C08_fault_beyond_the_end :
+  let go f := let '(r, s) := ex_run (c_valid [30]) HApplyFlows f in
+              (result_code r, normalize (dsk s), length (seen s), map view_of (arrivals s)) in
+  go (AtStep 1000) = go NoFault /\
+  (let '(r, s) := ex_run (c_valid [30]) HApplyFlows (AtStep 1000) in (result_code r, length (seen s), flt s))
+  = (1, 35%nat, AtStep 966) /\
+  flt (snd (ex_run (c_valid [30]) HApplyFlows NoFault)) = NoFault.
+Proof. split; [|split]; vm_compute; reflexivity. Qed.
+
+(* the premise [NoDup (map target ...)] of C08_engine_atomic_distinct_targets is
+   met by the example payload (two distinct flow files); the theorem applied to
+   it names THE new configuration, whatever the fault, for every run of it
+   that succeeds (C08_success_switches_old_to_new is one) *)
+Example C08_engine_atomic_distinct_targets_applies :
+  NoDup (map target (r_payload (ex_request HConfiguration))) /\
+  normalize (new_disk N true [] (ex_request HConfiguration) ex_disk)
+  = [(ex_f3, 30); (ex_f1, 11); (ex_q1, 50); ((AMetricsDefault, 0), 77)] /\
+  forall f r s', ex_run (fun _ => true) HConfiguration f = (r, s') -> r = Ok ->
+    built_from (new_disk N true [] (ex_request HConfiguration) ex_disk) (eng s').
+Proof.
+  assert (ND : NoDup (map target (r_payload (ex_request HConfiguration)))).
+  { vm_compute. repeat constructor; cbn; intuition discriminate. }
+  split; [exact ND|]. split; [vm_compute; reflexivity|]. intros f r s' R Er.
+  destruct (C08_engine_atomic_distinct_targets N N (fun c => c) N.eqb 0 999 flat (fun _ => true) (c_metrics_ok [])
+              N.eqb_eq [] [] (ex_request HConfiguration) ex_disk f r s'
+              (proj2 C08_hypotheses_satisfiable _ _) ND R) as (_ & _ & HO).
+  exact (proj1 (HO Er)).
+Qed.
 
 (* file names that leave their directory.  The disk holds a file outside the
    configuration places (the one the name points at) and a quota file (the one
@@ -777,6 +879,35 @@ Example C08_type_conflict_blocks_the_save :
   (result_code r, disk_eqb (dsk s) ex_disk_sub, type_conflict ex_under (r_payload rq) ex_disk_sub)
   = (1, true, true).
 Proof. vm_compute. reflexivity. Qed.
+
+(* ... but [type_conflict] over-approximates "bad by itself": /apply_flows with
+   the quota named "sub" and a VALID flow.  CleanAll has emptied quotas/sub,
+   the file "sub" takes the place of the directory: [Ok] without fault, the new
+   configuration on disk, although [type_conflict = true] (and no name escapes,
+   the verdicts accept everything).  For this payload
+   C08_rollback_fails_only_after_two_failures says no more than [f <> NoFault].
+   On this instance that is slack of the statement, not a hole of the code as
+   modelled: no single fault -- any of the primitive steps 0..59, any of the
+   hooks 0..39; the run has fewer of both, see the last two components -- ends
+   in [RollbackFailed]. *)
+Definition ex_request_sub_valid : request N :=
+  {| r_handler := HApplyFlows; r_method_ok := true; r_body_ok := true;
+     r_payload := [ex_entry FQuotas ex_sub 51; ex_entry FFlows ex_f3 31] |}.
+Definition ex_run_sub_valid (f : fault) : result * st N :=
+  run N N (fun c => c) N.eqb 0 999 ex_under (fun _ => true) (c_metrics_ok []) true true [] []
+      ex_request_sub_valid ex_disk_sub f.
+
+Example C08_type_conflict_payload_can_be_valid :
+  (let '(r, s) := ex_run_sub_valid NoFault in
+   (result_code r, normalize (dsk s),
+    type_conflict ex_under (r_payload ex_request_sub_valid) ex_disk_sub,
+    names_escape (r_payload ex_request_sub_valid)))
+  = (0, [(ex_sub, 51); (ex_f3, 31)], true, false) /\
+  existsb (fun f => N.eqb (result_code (fst (ex_run_sub_valid f))) 2)
+          (map AtStep (seq 0 60) ++ map AtHook (seq 0 40)) = false /\
+  (flt (snd (ex_run_sub_valid (AtStep 59))), flt (snd (ex_run_sub_valid (AtHook 39))))
+  = (AtStep 38, AtHook 32).
+Proof. split; [|split]; vm_compute; reflexivity. Qed.
 
 (* ---------------------------------------------------------------- the suite's oracles
    C08_rollback_fails_only_after_two_failures instantiated with the verdict
